@@ -300,7 +300,14 @@ impl DirEntry {
         for _ in name_utf16.len()..32 {
             writer.write_le_u16(0)?;
         }
-        writer.write_le_u16((name_utf16.len() as u16 + 1) * 2)?;
+        // An unallocated entry is blank (MS-CFB section 2.6.3): its name length
+        // is zero, not the length of an empty name plus its terminator.
+        let name_len_bytes = if self.obj_type == ObjType::Unallocated {
+            0
+        } else {
+            (name_utf16.len() as u16 + 1) * 2
+        };
+        writer.write_le_u16(name_len_bytes)?;
         writer.write_all(&[self.obj_type.as_byte()])?;
         writer.write_all(&[self.color.as_byte()])?;
         writer.write_le_u32(self.left_sibling)?;
